@@ -15,11 +15,31 @@ sys.path.insert(0, REPO)
 from robotpy_ext.misc import crc7 as mod  # noqa: E402
 
 
-def trace(tid, msg, as_bytes=True):
+import array  # noqa: E402
+
+FORMS = {"bytes": bytes, "list": list, "bytearray": bytearray, "tuple": tuple, "memoryview": lambda p: memoryview(bytes(p)),
+         "array": lambda p: array.array("B", p)}
+
+
+def aborted_call(rng):
+    """a call that fails part-way (a buffer holding something that is not a byte); the caller survives it.
+    The checksum of a message is a function of the message alone: whatever happened before must not matter."""
+    junk = [rng.randrange(256) for _ in range(rng.choice([1, 2, 5]))] + [rng.choice([None, 300, -1000, "x", 2.5])]
+    try:
+        mod.crc7(junk)
+    except Exception:
+        pass
+
+
+def trace(tid, msg, as_bytes=True, rng=None):
     steps = []
     for i in range(len(msg)):
         prefix = msg[:i + 1]
         data = bytes(prefix) if as_bytes else list(prefix)
+        if rng is not None:
+            data = FORMS[rng.choice(sorted(FORMS))](prefix)
+            if rng.random() < 0.15:
+                aborted_call(rng)
         try:
             c = mod.crc7(data)
             if type(c) is not int:
@@ -97,7 +117,7 @@ def main():
             msg = [rng.choice([0, 255, 1, 128, rng.randrange(256), rng.randrange(256)]) for _ in range(n)]
             if not msg:
                 msg = [rng.randrange(256)]
-            traces.append(trace(a.first_id + i, msg, as_bytes=rng.random() < 0.5))
+            traces.append(trace(a.first_id + i, msg, as_bytes=rng.random() < 0.5, rng=rng if i % 2 else None))
     json.dump(traces, open(a.out, "w"))
 
 
